@@ -643,15 +643,25 @@ def check_C19(sc, v, tier, seed, replay):
                 gs.append(classes[2 + pi % 2]) if tier == "quick" and si == 0 and pi % 3 == 0 else None
             if kind == "garbage":
                 gs.append(("cut", [3, 2, 12, 5][pi % 4]))      # the genuine answer without its last octets
+            if kind == "garbage" and (si == 0 or tier != "quick"):
+                # the genuine answer with one information element whose value is no value of its type (the frame around it intact), the
+                # IE marked "ignore" (criticality says what to do with an IE that is not comprehended, not with one that cannot be decoded)
+                gs.append(("ie", 1 + pi % 4, True))
+                if pi % 2 == 0:
+                    gs.append(("ie", 2 + pi % 3, False))
             for gi, g in enumerate(gs):
                 # one scenario for all fault runs of a shape; the AMF's optional-IE choices rotate with the seed (seed % 3 = 2: the
                 # five-IE DownlinkNASTransport and the long InitialContextSetupRequest are the messages replaced by garbage)
                 # (the registration-only shape lets the subscriber block end on ...0000: the second UE's RAN-UE-NGAP-ID is 0)
-                fl = {"kind": kind, "at": at, "bytes": [], "cut": g[1]} if isinstance(g, tuple) else {"kind": kind, "at": at, "bytes": g}
+                fl = {"kind": kind, "at": at, "bytes": g}
+                if isinstance(g, tuple) and g[0] == "cut":
+                    fl = {"kind": kind, "at": at, "bytes": [], "cut": g[1]}
+                elif isinstance(g, tuple):
+                    fl = {"kind": kind, "at": at, "bytes": [255, 255, 255], "ie": g[1], "ignore": g[2]}
                 scn, text = online.make_scenario(random.Random(seed * 7 + si), counts,
                                                  opts={"det": si + seed % 3, "gnb_bits": 22 + (seed + 4 * 9) % 11, "free_msin": s[1] == 0, "imsi_len": 15, "low": 9999},
                                                  fault=fl)
-                jobs.append(("f%d-%s%02d%s" % (si, kind, at, "abcde"[gi] if kind == "garbage" else ""), scn, text))
+                jobs.append(("f%d-%s%02d%s" % (si, kind, at, "abcdefgh"[gi] if kind == "garbage" else ""), scn, text))
         # two events in one run: the message whose content the emulator ignores (what follows a Registration Complete) is undecodable,
         # which it may shrug off, and a later consumed answer is undecodable too (whatever made it shrug must not outlive that message)
         pre = 4 if s[0] == 1 or s[1] == 0 else 8
